@@ -1,0 +1,105 @@
+#ifndef HGRAPH_UTIL_VERIF_HOOKS_H
+#define HGRAPH_UTIL_VERIF_HOOKS_H
+
+/*
+ * Verification hooks (compile-time guard HGRAPH_VERIF; off in every normal build).
+ *
+ * With the guard off this header declares nothing and HGRAPH_VERIF_POINT expands to
+ * ((void)0): its arguments are not evaluated, no symbol, branch or include is added.
+ *
+ * With the guard on, the real-time executor and the push-source queue report their
+ * linearization points (inside the protecting mutex, after the state change) and a
+ * separate PRE point before each critical section (no hgraph mutex is held there, so an
+ * external test driver may block a thread at a PRE point to replay an interleaving).
+ * The handler receives the point id, the address of the protected object and two cheap
+ * scalars.  It must not throw and must not call back into the runtime.
+ */
+#if defined(HGRAPH_VERIF)
+
+#include <atomic>
+#include <cstdint>
+
+namespace hgraph::verif
+{
+    using hook_fn = void (*)(int point, const void *obj, std::int64_t a, std::int64_t b);
+
+    /** Installed by the verification driver; null = no reporting. */
+    inline std::atomic<hook_fn> hook{nullptr};
+
+    /** Added to every wall-clock read of the executor, in microseconds. */
+    inline std::atomic<std::int64_t> wall_clock_offset_us{0};
+
+    enum point : int
+    {
+        // ---- executor.cpp, real-time executor (obj = RealTimeExecutorStorage) ----
+        rt_advance_pre      = 100,  // before locking in advance_realtime        a = target us, b = previous evaluation time us
+        rt_advance_locked   = 101,  // lock taken                                a = push_update_pending, b = stop_requested
+        rt_wait_begin       = 102,  // lock held, about to wait_for              a = wait duration us, b = wall_now us
+        rt_wait_end         = 103,  // lock held again                           a = 4*woken_by_predicate + 2*pending + stop, b = wall_now us
+        rt_compute_next     = 104,  // next evaluation time computed             a = next us, b = wall_now us
+        rt_drain_cut        = 105,  // drain bound applied                       a = end_time us, b = consecutive immediate cycles
+        rt_mark_push_pre    = 110,
+        rt_mark_push_locked = 111,  // lock taken                                a = stop_requested, b = push_update_pending before
+        rt_mark_push_set    = 112,  // flag set                                  a = 1
+        rt_reset_push_pre   = 113,
+        rt_reset_push       = 114,  // flag cleared                              a = value before
+        rt_stop_pre         = 115,
+        rt_stop             = 116,  // stop flag set
+        // ---- push_source_node.cpp, QueuePolicyStorage (obj = storage) ----
+        pq_start            = 200,  // a = max_pending
+        pq_stop_pre         = 201,
+        pq_stop_locked      = 202,  // a = size before, b = accepting before
+        pq_stop_done        = 203,  // a = size after, b = accepting after
+        pq_try_send_pre     = 204,
+        pq_refused_stopped  = 205,  // a = size, b = max_pending
+        pq_refused_full     = 206,  // a = size, b = max_pending
+        pq_accepted         = 207,  // a = size after, b = was_empty
+        pq_send_blocking_pre = 208,
+        pq_before_wait      = 209,  // a = size, b = max_pending
+        pq_after_wake       = 210,  // a = size, b = accepting
+        pq_try_pop_pre      = 211,
+        pq_pop_empty        = 212,
+        pq_pop              = 213,  // a = size after, b = more_pending
+        pq_take_all_pre     = 214,
+        pq_take_all         = 215,  // a = taken, b = size after
+        // ---- ConflatingPolicyStorage (obj = storage) ----
+        cf_start            = 300,
+        cf_stop_pre         = 301,
+        cf_stop             = 302,  // a = pending before
+        cf_try_send_pre     = 303,
+        cf_refused_stopped  = 304,
+        cf_accepted         = 305,  // a = pending after, b = was_pending
+        cf_take_pre         = 306,
+        cf_take_empty       = 307,
+        cf_take             = 308,
+        // ---- PushSourceSenderControl (obj = control block) ----
+        sc_enter_pre        = 400,
+        sc_enter_refused    = 401,  // a = closing, b = active calls
+        sc_entered          = 402,  // a = active calls after
+        sc_leave_pre        = 403,
+        sc_left             = 404,  // a = active calls after
+        sc_begin_close_pre  = 405,
+        sc_begin_close      = 406,  // a = active calls
+        sc_stop_seen        = 407,  // engine stop request observed by a sender (no lock)
+        sc_quiescent        = 408,  // a = active calls (0)
+        sc_detached         = 409,
+    };
+
+    inline void fire(int p, const void *obj, std::int64_t a, std::int64_t b) noexcept
+    {
+        if (const hook_fn fn = hook.load(std::memory_order_acquire)) { fn(p, obj, a, b); }
+    }
+}  // namespace hgraph::verif
+
+// `pt` is the bare enumerator name, e.g. HGRAPH_VERIF_POINT(rt_stop, &state, 0, 0)
+#define HGRAPH_VERIF_POINT(pt, obj, a, b)                                                      \
+    ::hgraph::verif::fire(static_cast<int>(::hgraph::verif::pt), (obj),                        \
+                          static_cast<std::int64_t>(a), static_cast<std::int64_t>(b))
+
+#else
+
+#define HGRAPH_VERIF_POINT(pt, obj, a, b) ((void)0)
+
+#endif  // HGRAPH_VERIF
+
+#endif  // HGRAPH_UTIL_VERIF_HOOKS_H
